@@ -44,7 +44,8 @@ impl Default for GenOpts {
     }
 }
 
-pub const SIGNIFICANT: [&str; 44] = [
+pub const SIGNIFICANT: [&str; 50] = [
+    "007", "1_000", "0b11", "+1", "1.", "00.5",
     "true", "false", "yes", "no", "on", "off", "~", "null", "Null", "NULL", "1", "0", "-1", "0o7", "0x1F",
     "1e3", "1.5", ".5", ".inf", ".nan", "a: b", "- x", "#c", " #c", "a\nb", "line\n", "line\n\n", " lead",
     "trail ", "'", "\"", "\\", "a'b\"c", "---", "]]>", "[x]", "{x}", "&a", "*a", "!t", "%d", "@", "1979-05-27",
